@@ -114,13 +114,19 @@ def main():
         meta["valid_seed"] = bool(good)
         dst = os.path.join("/verif/seeded", name)
         os.makedirs(dst, exist_ok=True)
-        shutil.copy(patch, os.path.join(dst, "patch.diff"))
-        for f in demos:
-            p = os.path.join(src, f)
-            if os.path.isfile(p):
-                shutil.copy(p, os.path.join(dst, f))
-        if os.path.exists(os.path.join(src, "README.md")):
-            shutil.copy(os.path.join(src, "README.md"), os.path.join(dst, "README.md"))
+        if os.path.realpath(src) != os.path.realpath(dst):
+            shutil.copy(patch, os.path.join(dst, "patch.diff"))
+            for f in demos:
+                p = os.path.join(src, f)
+                if os.path.isfile(p):
+                    shutil.copy(p, os.path.join(dst, f))
+            if os.path.exists(os.path.join(src, "README.md")):
+                shutil.copy(os.path.join(src, "README.md"), os.path.join(dst, "README.md"))
+        else:
+            old_meta = json.load(open(os.path.join(dst, "meta.json"))) if os.path.exists(os.path.join(dst, "meta.json")) else {}
+            for k in ("needs_to_manifest", "history"):
+                if old_meta.get(k) and not meta.get(k):
+                    meta[k] = old_meta[k]
         json.dump(meta, open(os.path.join(dst, "meta.json"), "w"), indent=1)
         print("archived to", dst, "valid_seed=%s caught=%s" % (good, meta["caught"]))
         return 0
